@@ -32,6 +32,8 @@ func main() {
 		runConc(*in, *out, *seed)
 	case "pool":
 		runPool(*in, *out, *seed)
+	case "resp":
+		runResp(*in, *out, *seed)
 	case "nego":
 		runNego(*in, *out, *seed)
 	default:
